@@ -146,10 +146,13 @@ def run_present_case(case: dict) -> dict:
         out["names"] = sorted(set(info["names"]))
         out["bcnt"] = info["bcnt"]
         out["strict_problems"] = [p["kind"] for p in problems][:4]
+        import re
+        out["bcnt_names"] = sorted(re.findall(r":([^;:]*?),BCNT", res["puml"]))
         if ast is not None:
             out["nf"] = repr(puml.normal_form(ast))
-            rejected = [i for i, job in enumerate(jobs) if puml.accepts(ast, job) is False]
-            out["rejected_jobs"] = rejected[:5]
+            if not case.get("counts"):
+                rejected = [i for i, job in enumerate(jobs) if puml.accepts(ast, job) is False]
+                out["rejected_jobs"] = rejected[:5]
     else:
         out["exc_type"] = res["exc_type"]
         out["exc"] = res.get("exc")
